@@ -1464,3 +1464,42 @@ impl Searcher {{
     r2, d2 = frag_record('rowflow::Searcher::frag_ordered_output', 'src/searcher.rs', 'fn list_search_results / the `else if self.is_buffered() {..}` block in front of write_footer (verbatim)', obody, obody,
                          ['output_buffer.values() -> the buffered rows in order; write! and std::io::stdout() -> recording stand-ins'], 'TopN ordering itself, the aggregate / grouped output branches')
     return dict(functions=[r2], dropped=[d2])
+
+
+# --------------------------------------------------------------------------------------------------
+# format_filesize(): specifier flags and unit -> (fixed unit, base, precision)  (C14, rendering side)
+# --------------------------------------------------------------------------------------------------
+def unit_sizefmt(inj, scratch):
+    frag_begin(inj)
+    s = src('src/util/mod.rs', scratch)
+    it = s.fn('format_filesize')
+    span = s.body_span(it)
+    m1 = s.find_one(r'let\s+fixed_at\s*;', span, what='format_filesize: let fixed_at;')
+    m2 = s.find_one(r'let\s+format_options\s*=', span, what='format_filesize: let format_options =')
+    if not m1.start() < m2.start():
+        raise AnchorLost('format_filesize: option table does not precede format_options')
+    t = dedent(s.text[m1.start():m2.start()].rstrip())
+    tail = re.sub(r'\s+', '', s.mask[m2.start():it['close']])
+    if not re.search(r'humansize::FormatSizeOptions::from\(format\)\.fixed_at\(fixed_at\)\.decimal_places\(zeroesasusize\)\.space_after_value\(space\)', tail):
+        raise AnchorLost('format_filesize: format_options is not built from (format, fixed_at, zeroes, space)')
+    text = f'''pub mod sizefmt {{
+pub mod humansize {{
+    #[derive(Clone, Copy, PartialEq, Debug)] pub enum FixedAt {{ Base, Kilo, Mega, Giga, Tera, Peta, Exa }}
+    #[derive(Clone, Copy, PartialEq, Debug)] pub enum Base {{ Binary, Decimal, Windows }}
+    pub const BINARY: Base = Base::Binary;
+    pub const DECIMAL: Base = Base::Decimal;
+    pub const WINDOWS: Base = Base::Windows;
+}}
+pub fn error_exit(_a: &str, _b: &str) -> ! {{ kani::assume(false); loop {{}} }}
+// ---- verbatim: format_filesize from `let fixed_at;` up to (not including) `let format_options = ..` ----
+pub fn frag_size_options(mut modifier: String, mut zeroes: i32) -> (Option<humansize::FixedAt>, humansize::Base, i32) {{
+    {t}
+    (fixed_at, format, zeroes)
+}}
+{H('frag_sizefmt.kani.rs')}
+}}
+'''
+    inj.new_file(FRAG_FILE, text)
+    r, d = frag_record('frag_size_options', 'src/util/mod.rs', 'fn format_filesize / statements from `let fixed_at;` up to `let format_options = ..` (verbatim); the use of (format, fixed_at, zeroes, space) in format_options is checked by shape',
+                       t, t, ['humansize::{FixedAt, BINARY, DECIMAL, WINDOWS} -> shim enums'], 'the specifier regex (precision / space / unit capture), humansize rendering, the kB/short-unit text replacements')
+    return dict(functions=[r], dropped=[d], assumptions=['humansize: BINARY = 1024-based with KiB.. units, DECIMAL = 1000-based with kB.., WINDOWS = 1024-based with KB.. units; FixedAt fixes the unit'])
